@@ -281,6 +281,10 @@ def main(argv=None):
                         rec['outcome'] = 'stub_mismatch'
                         lines.append(f'HARNESS-ERROR property={prop} witness of {name}: replay crashed: '
                                      f'{json.dumps(vr)[:400]}')
+                    elif not vr.get('ok', False) and 'StubGap' in str(vr.get('detail') or ''):
+                        # a plain replay that itself ran into a stub: nothing observed about the package
+                        rec['outcome'] = 'inconclusive'
+                        lines.append(f'INCONCLUSIVE property={prop} witness of {name}: stub gap in the replay ({str(vr.get("detail"))[:200]})')
                     elif not vr.get('ok', False):
                         # the symbolic run says this input is fine; the unmodified package, judged by the independent
                         # file-level oracle, says it is not: that is an observed violation of the property on the real
@@ -409,6 +413,11 @@ def handle_counterexample(prop, ob, name, r, findings, tier, seed, lines, rec):
     if rr.get('error'):
         lines.append(f'HARNESS-ERROR property={prop} obligation={name}: replay crashed: {rr["error"][:400]}')
         return 'replay_error', 0, True
+    if 'StubGap' in str(rr.get('detail') or ''):
+        # the replay itself ran into a stub (plain replays of harnesses that stand a numpy stub in): what "reproduced"
+        # is the gap in the stub, not a behaviour of the package - never a verdict
+        lines.append(f'INCONCLUSIVE property={prop} obligation={name}: stub gap in the replay ({str(rr.get("detail"))[:200]})')
+        return 'inconclusive', 0, False
     if not rr.get('reproduced', False) and 'StubGap' in (r.get('message') or ''):
         # the code under analysis uses something the stubs do not model, and the real package behaves as specified
         # on the same input: the obligation is not decided (reported, never a verdict)
